@@ -1,2 +1,2 @@
-/- C15 — theorems are being added. -/
-import DsdVerif.Model.World
+/- C15 — class independence: the frame theorems are in Props/C05World.lean (namespace Dsd.C05). -/
+import DsdVerif.Props.C05World
